@@ -392,6 +392,63 @@ class CFG:
             return n.id == self.exit.id or (include_raise and n.id == self.raise_exit.id)
         return self.search(starts, tgt, blocked=avoid, follow_exc=follow_exc or include_raise)
 
+    def consistent_path_to_exit_avoiding(self, starts, avoid: Callable[[Node], bool], follow_exc: bool = False, init_facts=()):
+        """Like path_to_exit_avoiding, but *path sensitive* for repeated tests: the atoms established by the test outcomes taken so far
+        are carried along the path (killed when a statement assigns a name they mention), and an outcome that contradicts them is not
+        followed. `if a and b: x ... if a: y else: z` - a path through x never reaches z. Returns a witness path or None."""
+        import re as _re
+        start_items = [self.entry.id] if starts is None else list(starts)
+        stack: list[tuple[int, frozenset, tuple]] = []
+        for s_ in start_items:
+            if isinstance(s_, tuple):
+                sid, lab = s_
+                f0 = set(init_facts)
+                nd = self.nodes[sid]
+                if nd.kind == "test" and lab in ("T", "F"):
+                    f0 |= set(atoms(nd.ast, lab == "T"))
+                for d, l in self.succ[sid]:
+                    if l == lab:
+                        stack.append((d, frozenset(f0), (sid,)))
+            else:
+                stack.append((s_, frozenset(init_facts), ()))
+        seen: set = set()
+        while stack:
+            nid, facts, path = stack.pop()
+            if (nid, facts) in seen or len(seen) > 200000:
+                continue
+            seen.add((nid, facts))
+            nd = self.nodes[nid]
+            if avoid(nd):
+                continue
+            if nid == self.exit.id:
+                return [self.nodes[i] for i in path + (nid,)]
+            cur = set(facts)
+            if nd.kind in ("stmt", "for") and nd.ast is not None:
+                assigned = {t.id for x in ast.walk(nd.ast) for t in ([x] if isinstance(x, ast.Name) and isinstance(x.ctx, ast.Store) else [])}
+                assigned |= {norm(x) for x in ast.walk(nd.ast) if isinstance(x, ast.Attribute) and isinstance(x.ctx, ast.Store)}
+                if assigned:
+                    cur = {(a, p_) for a, p_ in cur if not any(_re.search(r"(?<![\w.])" + _re.escape(nm) + r"(?![\w])", a) for nm in assigned)}
+            for d, l in self.succ[nid]:
+                if l == "exc" and not follow_exc:
+                    continue
+                nxt = set(cur)
+                if nd.kind == "test" and l in ("T", "F"):
+                    new = atoms(nd.ast, l == "T")
+                    if any((a, not p_) in cur for a, p_ in new):
+                        continue        # contradicts an outcome taken earlier on this path
+                    # a conjunction that is true makes each conjunct true; one that is false is consistent unless all conjuncts are known true
+                    if isinstance(nd.ast, ast.BoolOp) and isinstance(nd.ast.op, ast.And) and l == "F":
+                        parts = [atoms(v, True) for v in nd.ast.values]
+                        if all(all(x in cur for x in p_) for p_ in parts):
+                            continue
+                    if isinstance(nd.ast, ast.BoolOp) and isinstance(nd.ast.op, ast.Or) and l == "T":
+                        parts = [atoms(v, False) for v in nd.ast.values]
+                        if all(all(x in cur for x in p_) for p_ in parts):
+                            continue
+                    nxt |= set(new)
+                stack.append((d, frozenset(nxt), path + (nid,)))
+        return None
+
     def dominators(self) -> dict[int, set[int]]:
         if self._dom is None:
             self._dom = _dominators(self, self.entry.id, self.succ, self.pred)
